@@ -100,8 +100,25 @@ pub fn observe(case: &Case) -> Obs {
             #[cfg(unix)]
             std::os::unix::fs::symlink(db.join("real.shp"), &link).expect("symlink");
             link
+        } else if case.seq.len() % 3 == 2 {
+            dir.join(format!("C04-{}.SHP", tid))
+        } else if case.seq.iter().sum::<usize>() % 3 == 1 {
+            // no extension at all
+            dir.join(format!("c04-{}-noext", tid))
+        } else if case.seq.iter().sum::<usize>() % 3 == 2 && cfg!(unix) {
+            // a name that is not valid UTF-8
+            #[cfg(unix)]
+            {
+                use std::os::unix::ffi::OsStrExt;
+                let mut b = b"c04-\xff\xfe-".to_vec();
+                b.extend(tid.as_bytes());
+                b.extend(b".shp");
+                dir.join(std::ffi::OsStr::from_bytes(&b))
+            }
+            #[cfg(not(unix))]
+            dir.join(format!("c04-{}.shp", tid))
         } else {
-            dir.join(if case.seq.len() % 3 == 2 { format!("C04-{}.SHP", tid) } else { format!("c04-{}.shp", tid) })
+            dir.join(format!("c04-{}.shp", tid))
         };
         std::fs::write(&path, vec![0xEEu8; 70_000]).expect("prefill");
         std::fs::write(path.with_extension("shx"), vec![0xEEu8; 9_000]).expect("prefill");
@@ -183,7 +200,7 @@ pub fn observe(case: &Case) -> Obs {
         // random access at every position (for very long files: both ends and the block boundaries)
         let positions: Vec<usize> = if n <= 64 { (0..n + 2).collect() } else { (0..8).chain(n / 2 - 2..n / 2 + 2).chain(996..1004.min(n)).chain(1020..1030.min(n)).chain(2996..3004.min(n)).chain(n - 4..n + 2).collect() };
         // (and the ends of the index type: nothing is there)
-        for i in positions.into_iter().chain([i32::MAX as usize, u32::MAX as usize, usize::MAX - 1, usize::MAX]) {
+        for i in positions.into_iter().chain([i32::MAX as usize, u32::MAX as usize, usize::MAX - 1, usize::MAX]).chain((0..4).flat_map(|k| [(1usize << 32) + k, (1usize << 33) + k, (1usize << 63) + k])) {
             nth_pos.push(i);
             nth.push(r.read_nth_shape(i).map(|x| x.map(|s| from_lib(&s)).map_err(|e| err_kind(&e))));
         }
@@ -507,7 +524,7 @@ pub fn check(tier: Tier) -> i32 {
             tier,
             level: "model_checking",
             engine: "E2 enumerator: every ordered tuple of different-size shapes written by the real ShapeWriter, .shx parsed independently (RefCodec), reader routes compared",
-            rule: "13 types x every n in 0..=maxn x every ordered n-tuple over the type's reduced set of pairwise different-size structures; in-memory for all, from_path for n<=2 (and n=3 starting with structure 0; by turns under a plain name, a name in capitals, and through a symbolic link in another directory); for n<=8 the iterator is also driven through 14 programs of std adaptors (nth, skip, step_by, last, count) with and without the index from a fresh reader, after one next() and after seek(1); plus every history over {write a, write b, finalize} up to the fault-history bound x 13 types with every single one-shot fault and every unordered pair of faults on .shp / .shx: whenever no fault fired in drop, the two files (up to their declared lengths) satisfy the byte-level clause for the shapes whose write returned Ok; non-trivial = n >= 2",
+            rule: "13 types x every n in 0..=maxn x every ordered n-tuple over the type's reduced set of pairwise different-size structures; in-memory for all, from_path for n<=2 (and n=3 starting with structure 0; by turns under a plain name, a name in capitals, a name without extension, a name that is not valid UTF-8, and through a symbolic link in another directory); for n<=8 the iterator is also driven through 14 programs of std adaptors (nth, skip, step_by, last, count) with and without the index from a fresh reader, after one next() and after seek(1); plus every history over {write a, write b, finalize} up to the fault-history bound x 13 types with every single one-shot fault and every unordered pair of faults on .shp / .shx: whenever no fault fired in drop, the two files (up to their declared lengths) satisfy the byte-level clause for the shapes whose write returned Ok; non-trivial = n >= 2",
             bounds: json!({"max_records": maxn, "reduced_set_sizes": ALL13.iter().map(|t| reduced_set(*t).len()).collect::<Vec<_>>() }),
             exhaustive: true,
             assumptions: vec!["record sizes beyond the reduced set and n beyond the bound are not covered".into()],
